@@ -45,7 +45,8 @@ from corr import logix_gen as lg
 # recording layer (installed once per process)
 # --------------------------------------------------------------------------------------------------
 REC = {"on": False, "events": [], "lock": threading.Lock(), "ctr": itertools.count(), "yield": True,
-       "installed": False, "fuzz": 0.0, "nap": 0.001, "fuzz_store": 0.0}
+       "installed": False, "fuzz": 0.0, "nap": 0.001, "fuzz_store": 0.0,
+       "thread_name": None, "polite": 0.0}
 TL = threading.local()
 
 
@@ -111,6 +112,7 @@ def install():
             super().__init__(name, type_cls, default=default, **kw)
 
     orig_enter, orig_exit = automata.dfa_base.__enter__, automata.dfa_base.__exit__
+    _polite_rnd = random.Random(0x9011).random
 
     def rec_enter(self):
         r = orig_enter(self)
@@ -125,17 +127,33 @@ def install():
 
     def rec_exit(self, typ, val, tbk):
         d = getattr(TL, "depth", None)
+        top = False
         if d is not None:
             TL.depth = d - 1
             if d == 1 and REC["on"]:
                 stamp("R", id(self))
-        return orig_exit(self, typ, val, tbk)
+                top = True
+        r = orig_exit(self, typ, val, tbk)
+        if top and REC["polite"] and REC["on"]:
+            # a "polite" (fair) lock: having released a shared parser, the thread lets a thread that is waiting
+            # for it go first.  No semantics change; it selects the schedules in which a waiter enters the parser
+            # at the very moment another thread leaves it (e.g. between a bundle header and its members).
+            q = _polite_rnd()
+            if q < REC["polite"]:
+                time.sleep(0 if q < REC["polite"] / 2 else 0.001)
+        return r
 
     automata.dfa_base.__enter__ = rec_enter
     automata.dfa_base.__exit__ = rec_exit
 
     def rec_process(addr, data, **kwds):
         TL.depth = 0
+        if REC["thread_name"]:
+            # the session threads of a server may carry any names, in particular all the same one (Thread names
+            # need not be unique: e.g. a thread factory that calls every session thread "enip")
+            th = threading.current_thread()
+            if th.name != REC["thread_name"]:
+                th.name = REC["thread_name"]
         if REC["on"]:
             stamp("F", tuple(addr) if addr else None)
         try:
@@ -320,7 +338,9 @@ class C09(Suite):
             "cpppo client.connector) issuing read/write/fragmented/bundled requests on a shared stripe (only ever "
             "written whole), per-session private ranges and a free-for-all range of 1..3 tags, ~12% invalid "
             "requests, optionally one session ending in a malformed frame; exhaustive pairs of request shapes for "
-            "two sessions first, then seeded random cases; the interleaving is whatever the OS/GIL produced under "
+            "two sessions first, then seeded random cases and bundle-only cases; session threads run under their default "
+            "names or all under ONE common Thread name; parser locks optionally polite (a releasing thread lets a "
+            "waiter in); the interleaving is whatever the OS/GIL produced under "
             "switch intervals 1e-6..5e-3 with injected yields, and is recorded.  evaluations = cases (concurrent "
             "runs); distinct_nontrivial = requests that were in flight together with a conflicting request "
             "(same tag, overlapping elements, at least one a write) of another session")
@@ -458,7 +478,27 @@ class C09(Suite):
                 "si": rng.choice([1e-6, 1e-6, 1e-5, 1e-4, 5e-3]), "yield": rng.random() < 0.8,
                 "fuzz": rng.choice([0.0, 0.005, 0.01, 0.02]), "nap": rng.choice([0.003, 0.01]),
                 "fuzz_store": rng.choice([0.0, 0.05, 0.15]),
+                "thread_name": rng.choice([None, "enip", "enip"]), "polite": rng.choice([0.0, 0.5, 1.0]),
                 "seed": rng.randrange(1 << 30)}
+
+    def storm_case(self, rng, tier):
+        """2..4 sessions that send nothing but bundles, served by threads that all carry one name, with polite
+        parser locks: the schedules in which one thread enters the shared parser exactly when another leaves it
+        between a bundle's header and its members"""
+        nsess = rng.choice([2, 3, 3, 4])
+        tags = self.layout(rng, nsess)
+        per = rng.choice([6, 10]) if tier == "quick" else rng.choice([10, 20, 30])
+        sessions = []
+        for sid in range(nsess):
+            frames = []
+            for k in range(per):
+                ms = [self.rand_member(rng, tags, sid, k * 8 + j, invalid=0.05) for j in range(rng.choice([1, 2, 3, 5]))]
+                frames.append({"op": "mu", "path": ROUTER, "reqs": ms})
+            sessions.append({"client": "raw", "frames": frames, "chaos": None, "depth": rng.choice([1, 2])})
+        return {"budget": 488, "tags": tags, "sessions": sessions, "si": rng.choice([1e-6, 1e-4, 5e-3]),
+                "yield": rng.random() < 0.5, "fuzz": rng.choice([0.0, 0.005]), "nap": 0.003,
+                "fuzz_store": rng.choice([0.0, 0.05]), "thread_name": rng.choice(["enip", "enip", "worker", None]),
+                "polite": rng.choice([0.5, 1.0, 1.0]), "seed": rng.randrange(1 << 30)}
 
     def pair_cases(self):
         """exhaustive small scope: every ordered pair of request shapes, two sessions, one 6-element DINT tag"""
@@ -487,17 +527,21 @@ class C09(Suite):
                                  "frames": [shapes(sid)[sh](k) for k in range(5)]})
                 yield {"budget": 488, "tags": [dict(tag)], "sessions": sess, "si": 1e-6, "yield": True,
                        "fuzz": [0.0, 0.01, 0.02][(a + b) % 3], "nap": 0.005, "fuzz_store": [0.1, 0.0, 0.05][(a * 2 + b) % 3],
+                       "thread_name": "enip" if (a + b) % 2 == 0 else None, "polite": [1.0, 0.0, 0.5][(a + 2 * b) % 3],
                        "seed": a * n + b}
 
     def cases(self, tier, rng):
         for c in self.pair_cases():
             yield c
-        n = 34 if tier == "quick" else 200
-        for _ in range(n):
+        n = 30 if tier == "quick" else 190
+        for i in range(n):
+            if i % 5 == 0:
+                yield self.storm_case(rng, tier)
             yield self.rand_case(rng, tier)
 
     def search_cases(self, tier, rng):
         while True:
+            yield self.storm_case(rng, "thorough")
             yield self.rand_case(rng, "thorough")
 
     # ------------------------------------------------------------------ running the real thing
@@ -679,6 +723,8 @@ class C09(Suite):
             REC["fuzz"] = float(case.get("fuzz", 0.0))
             REC["nap"] = float(case.get("nap", 0.001))
             REC["fuzz_store"] = float(case.get("fuzz_store", 0.0))
+            REC["thread_name"] = case.get("thread_name") or None
+            REC["polite"] = float(case.get("polite", 0.0))
             sys.setswitchinterval(case["si"])
             REC["on"] = True
             outs, hung = self.run_clients(case, port, encoded)
@@ -689,9 +735,17 @@ class C09(Suite):
             events = list(REC["events"])
             obs = self.observe(case, outs, events, hung)
             case["obs"] = obs
-            return "ok " + obs["replies_line"] + " " + obs["dump"]
+            # lock discipline as observed (exclusion on every shared parser; 3 + members outermost sections per
+            # frame): part of the correspondence with the model's step structure, not of the property oracle
+            status = "ok"
+            if obs.get("excl"):
+                status = "anomaly:two-threads-inside-one-parser"
+            elif obs.get("struct"):
+                status = "anomaly:parser-sections"
+            return status + " " + obs["replies_line"] + " " + obs["dump"]
         finally:
             REC["on"] = False
+            REC["thread_name"], REC["polite"] = None, 0.0
             sys.setswitchinterval(saved_si)
             logix.Logix.MAX_BYTES = saved_max
             if ctl is not None:
@@ -816,7 +870,7 @@ class C09(Suite):
                 secs = g["sec"]
                 if len(secs) != want or any(s[1] is None for s in secs):
                     obs["struct"].append(f"session {sid} frame {k}: {len(secs)} shared-parser sections, expected {want} "
-                                         f"(every use of a shared parser must be inside its lock)")
+                                         f"(this thread parsed something else than the members of its own request)")
                 msecs = secs[-len(mem):] if len(secs) >= len(mem) else []
                 statuses = self.member_statuses(fr, outs[sid]["replies"][k])
                 key = (g["F"], 0)
@@ -984,11 +1038,7 @@ class C09(Suite):
                     if got[e * sz:(e + 1) * sz] != lastv[(e, sid)]:
                         return (f"lost write: element {e} at {a} is written only by session {sid}, whose last accepted "
                                 f"value is {lastv[(e, sid)].hex()}, but it holds {got[e * sz:(e + 1) * sz].hex()}")
-        # O6: lock exclusion, O3': lock discipline
-        if obs["excl"]:
-            return "two threads inside one shared parser: " + obs["excl"][0]
-        if obs["struct"]:
-            return obs["struct"][0]
+        # (lock exclusion and lock discipline are reported through the impl line's status token, see impl)
         # O3: every accepted request made exactly one storage access (of its own kind, on its own elements),
         #     every refused request none
         spec0 = lg.ArraySpec(case, obs["addrs"])
@@ -1094,6 +1144,10 @@ class C09(Suite):
         self._stats["requests"] = self._stats.get("requests", 0) + reqs
         kind = "pairs" if len(case["tags"]) == 1 and case["tags"][0]["len"] == 6 and n == 2 else "random"
         fz = "on" if (case.get("fuzz") or case.get("fuzz_store")) else "off"
+        if kind == "random" and all(fr["op"] == "mu" for s_ in case["sessions"] for fr in s_["frames"]):
+            kind = "bundle-storm"
+        kind += " threads=" + ("same-name" if case.get("thread_name") else "default-names")
+        kind += " polite=" + ("y" if case.get("polite") else "n")
         return (f"{kind} sessions={n} si={case['si']:g} fuzz={fz}"
                 f" chaos={'y' if any(s.get('chaos') for s in case['sessions']) else 'n'}"
                 f" access-order-switches={swb}")
